@@ -122,6 +122,7 @@ func vbound(name string, quick, thorough int) int {
 	return quick
 }
 func vmode(m string)           {}
+func vsolver(name string)      {}
 func vand(a, b bool) bool      { return a && b }
 func vor(a, b bool) bool       { return a || b }
 func vnot(a bool) bool         { return !a }
